@@ -24,7 +24,8 @@ U = ["a", "b", "c", "d"]
 
 def scope_strings(rng, tier):
     out = [None, "", "a", "b", "a b", "b a", "a a", "a b c", "a z", "z", "a  b", " a", "a\tb", "d c b a", "a b c d",
-           "ab", "profile", "admin profile:read", "c ab"]           # scope names that are substrings of other scope names
+           "ab", "profile", "admin profile:read", "c ab",           # scope names that are substrings of other scope names
+           "a,b", "c,d a", "a;b", "a+b", "a%20b"]                    # RFC 6749 §3.3: scope tokens are separated by spaces only; ',' ';' '+' '%' are token characters
     if tier == "thorough":
         for r in (1, 2, 3):
             for p in itertools.permutations(U, r):
